@@ -1,5 +1,6 @@
 """C15 -- tilt-stack operations are lossless selections/permutations of tilt images"""
 from .common import *
+from . import C09 as _c09
 from . import C11 as _c11
 
 TITLE = "Tilt-stack operations are lossless selections/permutations of tilt images"
@@ -361,6 +362,18 @@ def o155(ctx):
         if perms != ([(2, 1, 0)] if want else []):
             ctx.finding(qc, f"output_order={out}", f"correct_order must {'apply (2,1,0)' if want else 'not permute'} when the requested order is "
                         f"{out!r} and the internal one {cur!r}; found {perms}", fc, mc)
+    # the returned array has the stack's data type in either output order (the same conversion the file sink applies)
+    for out, cur in (("xyz", "zyx"), ("zyx", "zyx")):
+        it = Interp(ctx.prog, assume=assume_map({"return_data.dtype != self.data_type": True, "new_data is not None": True}))
+        me = Obj("tiltstack.TiltStack", {"data": Unk(sym("stack")), "data_type": Unk(sym("dtype")), "current_order": K(cur), "output_order": K(out)})
+        r = it.run(qc, [Unk(sym("result"))], {}, self_obj=me)
+        t_ = to_term(r.ret)
+        cast_ok = tm.contains(t_, lambda n: n.op == "call" and n.args[0] == ".astype" and len(n.args) > 2 and n.args[1] == sym("result") and n.args[2] == sym("dtype"))
+        ctx.count(1, {"output_order": out, "result of another type": tm.show(t_)[:80]})
+        if not cast_ok:
+            ctx.finding(qc, f"type of the returned array, output_order={out}", f"with output_order={out!r} a result whose type differs from the stack's "
+                        "(block means of an int16 stack) must be converted to the stack's data type before it is returned, exactly as the file "
+                        f"sink does; returned: {tm.show(t_)[:80]}", fc, mc)
     qw = TS + "TiltStack.write_out"
     mw, fw = ctx.prog.func(qw)
     it = Interp(ctx.prog, no_inline=("cryomap.write",), assume=assume_map({"output_file": True, "new_data is not None": False}))
@@ -377,6 +390,7 @@ def o155(ctx):
 
 def _obligations():
     return [
+        Obligation("O15.7", "loaders: tlt_load passes arrays / lists through and returns every file value (sorted only on request); total_dose_load hands doses back as given (shared with C09)", lambda ctx: (_c09.o96(ctx), _c09.o98(ctx)), floor=12),
         Obligation("O15.1", "crop: centred windows on the height axis 1 / width axis 2, protocol", o151, floor=7),
         Obligation("O15.2", "sort (ascending argsort, axis 0), remove (np.delete axis 0, 1-based option, no in-place), bin (1,b,b)", o152, floor=20),
         Obligation("O15.3", "even/odd split by parity over every index; flips reverse one axis each; merge on axis 0 ascending", o153, floor=25),
